@@ -11,6 +11,7 @@ import (
 	"fmt"
 	"go/ast"
 	"go/constant"
+	"go/parser"
 	"go/token"
 	"os"
 	"path/filepath"
@@ -41,12 +42,17 @@ const (
 	// fourth part (code_part4.go)
 	kI32  // int32 -> Int32 (two's complement wrap-around, Lean's Int32)
 	kFunc // a parameter of function type without results: its calls are logged (callback log)
+	// fifth part (code_iface.go)
+	kIface // a value of interface type: the abstract state of the object behind it -> a type parameter
 )
 
 type gtype struct {
 	kind gkind
 	name string // struct name
 	elem *gtype // slice element
+	// fifth part
+	targs  []string // kStruct: the type parameters of the structure (interface types of its fields)
+	goName string   // kIface: the Go spelling of the interface type ("io.Writer")
 }
 
 func (t gtype) eq(u gtype) bool {
@@ -95,6 +101,11 @@ func (t gtype) lean() string {
 	case kError:
 		return "Err"
 	case kStruct:
+		if len(t.targs) > 0 {
+			return t.name + " " + strings.Join(t.targs, " ")
+		}
+		return t.name
+	case kIface:
 		return t.name
 	case kSlice:
 		e := t.elem.lean()
@@ -160,6 +171,10 @@ type fnCtx struct {
 	pendingLabel string            // label of the loop statement that is translated next
 	cbParams     map[string][]gtype
 	retVars      []string // hidden variables that carry the values of a `return` inside a loop
+	// code_parse.go
+	ptrVars     map[*varInfo]bool      // the parameters (and the receiver) of pointer type
+	nonNilUsed  []string               // pointer parameters whose comparison with nil was decided by the topic's assumption
+	blockLabels map[string]*blockLabel // labels on statements of nested blocks (goto targets)
 }
 
 type codegen struct {
@@ -183,6 +198,10 @@ type codegen struct {
 	white3Set map[fnKey]bool
 	// fourth part (code_part4.go)
 	phase4          bool // implies phase3
+	phase5          bool // fifth part (code_iface.go), implies phase4
+	white5Set       map[fnKey]bool
+	ifaces          map[string]*ifaceInfo
+	ifaceDecls      map[string]*ast.InterfaceType
 	white4Set       map[fnKey]bool
 	prefix          string             // Lean name prefix of the functions of a sub-package
 	reservedStructs map[string][]field // struct names of the root package (a sub-package must not re-use them)
@@ -194,6 +213,8 @@ type codegen struct {
 	errVars         map[string]*errVar
 	errVarDropped   map[string]bool
 	errVarUse       []string
+	// code_parse.go: the topic being translated assumes that pointer parameters are not nil
+	ptrNonNil bool
 }
 
 func (c *codegen) pos(n ast.Node) string {
@@ -320,6 +341,9 @@ func (c *codegen) typeOf(e ast.Expr, at ast.Node) gtype {
 			c.needStruct(name, at)
 			return gtype{kind: kStruct, name: name}
 		}
+		if it, ok := c.ifaceType(x); ok {
+			return it
+		}
 		if _, ok := c.structs[x.Name]; ok {
 			name := x.Name
 			if c.phase2 && c.structPhase[name] == 1 && c.hasBytesField(name, map[string]bool{}) {
@@ -328,7 +352,14 @@ func (c *codegen) typeOf(e ast.Expr, at ast.Node) gtype {
 				name += "'"
 			}
 			c.needStruct(name, at)
+			if c.phase5 {
+				return gtype{kind: kStruct, name: name, targs: c.structTArgs(name)}
+			}
 			return gtype{kind: kStruct, name: name}
+		}
+	case *ast.SelectorExpr:
+		if it, ok := c.ifaceType(x); ok {
+			return it
 		}
 	case *ast.StarExpr:
 		// pointers only to structs (receivers); modelled by value
@@ -430,6 +461,13 @@ func (c *codegen) typeOfStr(s string, in string, at ast.Node) gtype {
 			return gtype{kind: kGSlice, elem: &t}
 		}
 		return gtype{kind: kSlice, elem: &t}
+	case c.phase5 && strings.Contains(s, ".") && !strings.HasPrefix(s, "*") && c.ifaceByStr(s) != nil:
+		if e, err := parser.ParseExpr(s); err == nil {
+			if it, ok := c.ifaceType(e); ok {
+				return it
+			}
+		}
+		c.fail(at, "field type %s in struct %s", s, in)
 	case strings.HasPrefix(s, "*") || s == "?" || s == "func" || strings.Contains(s, "."):
 		c.fail(at, "field type %s in struct %s", s, in)
 	}
@@ -442,7 +480,10 @@ func (c *codegen) fieldType(t gtype, f string, at ast.Node) gtype {
 }
 
 // fieldPath resolves the selector .f on a struct; a field promoted from an
-// embedded struct yields the path through the embedded field.
+// embedded struct yields the path through the embedded field(s).  Go's rule
+// (spec, "Selectors"): f denotes the field at the SHALLOWEST depth of embedding
+// where such a field exists; there must be exactly one at that depth.  (Chains of
+// any depth: hashParser ⊃ hashDictionary ⊃ ParserBuffer — code_parse.go.)
 func (c *codegen) fieldPath(t gtype, f string, at ast.Node) ([]string, gtype) {
 	if t.kind != kStruct {
 		c.fail(at, "selector .%s on non-struct type %s", f, t)
@@ -452,25 +493,107 @@ func (c *codegen) fieldPath(t gtype, f string, at ast.Node) ([]string, gtype) {
 			return []string{f}, sf.typ
 		}
 	}
-	var found []string
-	var ft gtype
-	for _, raw := range c.structs[goStruct(t.name)] {
-		if raw.name != "" {
-			continue
-		}
-		for _, sf := range c.structFields(raw.typ, at) {
-			if sf.name == f {
-				if found != nil {
-					c.fail(at, "ambiguous promoted field %s in struct %s", f, t.name)
+	type level struct {
+		name string   // struct reached
+		path []string // through these embedded fields
+	}
+	cur := []level{{t.name, nil}}
+	for depth := 0; depth < 20 && len(cur) > 0; depth++ {
+		var found []string
+		var ft gtype
+		var next []level
+		for _, l := range cur {
+			for _, raw := range c.structs[goStruct(l.name)] {
+				if raw.name != "" {
+					continue
 				}
-				found, ft = []string{raw.typ, f}, sf.typ
+				if _, ok := c.structs[raw.typ]; !ok {
+					continue // an embedded non-struct: structFields refuses the struct if it is used
+				}
+				p := append(append([]string{}, l.path...), raw.typ)
+				for _, sf := range c.structFields(raw.typ, at) {
+					if sf.name == f {
+						if found != nil {
+							c.fail(at, "ambiguous promoted field %s in struct %s", f, t.name)
+						}
+						found, ft = append(p, f), sf.typ
+					}
+				}
+				next = append(next, level{raw.typ, p})
 			}
 		}
+		if found != nil {
+			return found, ft
+		}
+		cur = next
 	}
-	if found == nil {
-		c.fail(at, "struct %s has no field %s", t.name, f)
+	c.fail(at, "struct %s has no field %s", t.name, f)
+	return nil, gtype{}
+}
+
+// promotedMethod finds the method m that struct `name` does not declare itself in its embedded
+// structs, by Go's rule (shallowest depth, unique there): the path of embedded fields to the
+// struct that declares it (nil: there is none).
+func (c *codegen) promotedMethod(name, m string, at ast.Node) []string {
+	type level struct {
+		name string
+		path []string
 	}
-	return found, ft
+	cur := []level{{goStruct(name), nil}}
+	for depth := 0; depth < 20 && len(cur) > 0; depth++ {
+		var found []string
+		var next []level
+		for _, l := range cur {
+			for _, raw := range c.structs[l.name] {
+				if raw.name != "" {
+					continue
+				}
+				if _, ok := c.structs[raw.typ]; !ok {
+					continue
+				}
+				p := append(append([]string{}, l.path...), raw.typ)
+				if c.fns[fnKey{raw.typ, m}] != nil {
+					if found != nil {
+						c.fail(at, "ambiguous promoted method %s of struct %s", m, name)
+					}
+					found = p
+				}
+				next = append(next, level{raw.typ, p})
+			}
+		}
+		if found != nil {
+			return found
+		}
+		cur = next
+	}
+	return nil
+}
+
+// rawPromotedFieldType: the Go spelling of the type of the field (or embedded struct) f promoted
+// into struct t from any depth ("" if there is none) — for the analyses that run on spellings.
+func (c *codegen) rawPromotedFieldType(t, f string) string {
+	cur := []string{t}
+	for depth := 0; depth < 20 && len(cur) > 0; depth++ {
+		var next []string
+		found := ""
+		for _, n := range cur {
+			for _, sf := range c.structs[n] {
+				if sf.name == f || (sf.name == "" && sf.typ == f) {
+					found = sf.typ
+				}
+				if sf.name == "" {
+					if _, ok := c.structs[sf.typ]; ok {
+						next = append(next, sf.typ)
+					}
+				}
+			}
+		}
+		if found != "" {
+			return found
+		}
+		cur = next
+	}
+	return ""
 }
 
 func zeroValue(t gtype) string {
@@ -517,7 +640,8 @@ var leanReserved = map[string]bool{
 	// third part
 	"GSlice": true, "shiftCount": true,
 	// fourth part
-	"Int32": true, "leadingZeros64": true, "trailingZeros64": true, "highBitBelow": true, "lowBitFrom": true,
+	"listSliceFrom": true,
+	"Int32":         true, "leadingZeros64": true, "trailingZeros64": true, "highBitBelow": true, "lowBitFrom": true,
 }
 
 func (c *codegen) push() { c.cur.scopes = append(c.cur.scopes, map[string]*varInfo{}) }
@@ -800,6 +924,11 @@ func (c *codegen) expr(e ast.Expr, want gtype, bare bool) (string, gtype) {
 		}
 		c.fail(e, "identifier %s (not a local variable, parameter or integer/string constant)", x.Name)
 	case *ast.SelectorExpr:
+		if id, ok := x.X.(*ast.Ident); ok && c.phase5 && c.lookup(id.Name) == nil {
+			if l, ok := stdErrVarOf(id.Name + "." + x.Sel.Name); ok {
+				return l, gtype{kind: kError}
+			}
+		}
 		s, t := c.expr(x.X, gtype{}, false)
 		fp, ft := c.fieldPath(t, x.Sel.Name, e)
 		return paren(s) + "." + strings.Join(fp, "."), ft
@@ -846,6 +975,10 @@ func (c *codegen) expr(e ast.Expr, want gtype, bare bool) (string, gtype) {
 			return c.shift(x, want)
 		case token.ADD, token.SUB, token.MUL, token.AND, token.OR:
 			return c.arith(x, want)
+		case token.XOR:
+			if c.phase5 {
+				return c.arith(x, want) // code_parse.go: a ^ b on unsigned values
+			}
 		}
 		c.fail(e, "binary operator %s", x.Op)
 	case *ast.CallExpr:
@@ -922,6 +1055,13 @@ func (c *codegen) arith(x *ast.BinaryExpr, want gtype) (string, gtype) {
 			return "ior " + paren(a) + " " + paren(b), t
 		}
 		return paren(a) + " ||| " + paren(b), t
+	case token.XOR:
+		// code_parse.go: bitwise exclusive or of two values of the same UNSIGNED type (on signed values
+		// it would be the two's-complement operation: refused)
+		if !t.unsigned() {
+			c.fail(x, "operator ^ on %s (only unsigned values)", t)
+		}
+		return paren(a) + " ^^^ " + paren(b), t
 	}
 	c.fail(x, "operator %s", x.Op)
 	return "", gtype{}
@@ -1001,6 +1141,9 @@ func (c *codegen) cond(e ast.Expr) string {
 			}
 			return paren(a) + " ∨ " + paren(b)
 		case token.EQL, token.NEQ, token.LSS, token.LEQ, token.GTR, token.GEQ:
+			if r, ok := c.ptrNilCompare(x); ok {
+				return r // code_parse.go: `p == nil` for a pointer parameter p
+			}
 			// nil comparisons take the type of the other side
 			var a, b string
 			var t gtype
